@@ -158,3 +158,53 @@ pub fn make_removable(dir: &Path) {
         }
     }
 }
+
+/// Create `model` as a real directory tree below `root` (which must exist and be empty): contents,
+/// link targets (arbitrary bytes), fifos, hard-link groups, modes, owners and mtimes (ns precision).
+pub fn materialize(model: &FsModel, root: &Path) -> Result<(), String> {
+    use std::ffi::CString;
+    use std::os::unix::ffi::OsStrExt as _;
+    let cpath = |p: &Path| CString::new(p.as_os_str().as_bytes()).map_err(|e| e.to_string());
+    let mut by_inode: BTreeMap<u64, PathBuf> = BTreeMap::new();
+    for (k, e) in &model.entries {
+        let p = root.join(path_of(k));
+        match &e.kind {
+            Kind::Dir => std::fs::create_dir(&p).map_err(|er| format!("mkdir {}: {er}", show_key(k)))?,
+            Kind::File(b) => {
+                if e.links > 1 {
+                    if let Some(first) = by_inode.get(&e.inode) {
+                        std::fs::hard_link(first, &p).map_err(|er| format!("link {}: {er}", show_key(k)))?;
+                        continue;
+                    }
+                    let _ = by_inode.insert(e.inode, p.clone());
+                }
+                std::fs::write(&p, &**b).map_err(|er| format!("write {}: {er}", show_key(k)))?;
+            }
+            Kind::Symlink(t) => std::os::unix::fs::symlink(OsStr::from_bytes(t), &p).map_err(|er| format!("symlink {}: {er}", show_key(k)))?,
+            Kind::Fifo => {
+                let c = cpath(&p)?;
+                if unsafe { libc::mkfifo(c.as_ptr(), 0o600) } != 0 {
+                    return Err(format!("mkfifo {}", show_key(k)));
+                }
+            }
+        }
+    }
+    // metadata, children before their directories (reverse order), so that directory mtimes stick
+    for (k, e) in model.entries.iter().rev() {
+        let p = root.join(path_of(k));
+        let c = cpath(&p)?;
+        unsafe {
+            if libc::lchown(c.as_ptr(), e.uid, e.gid) != 0 {
+                return Err(format!("lchown {}", show_key(k)));
+            }
+            if !matches!(e.kind, Kind::Symlink(_)) && libc::chmod(c.as_ptr(), e.mode & 0o7777) != 0 {
+                return Err(format!("chmod {}", show_key(k)));
+            }
+            let ts = [libc::timespec { tv_sec: e.mtime.0, tv_nsec: i64::from(e.mtime.1) }, libc::timespec { tv_sec: e.mtime.0, tv_nsec: i64::from(e.mtime.1) }];
+            if libc::utimensat(libc::AT_FDCWD, c.as_ptr(), ts.as_ptr(), libc::AT_SYMLINK_NOFOLLOW) != 0 {
+                return Err(format!("utimensat {}", show_key(k)));
+            }
+        }
+    }
+    Ok(())
+}
